@@ -40,7 +40,8 @@ structure Book where
   lastRead  : Option Nat := none           -- id of the request read last in the current op, not yet offered
   justRead  : Option Nat := none           -- … and nothing else has been observed since
   topPoll   : Bool := false                -- the current op is `poll-server`
-  stalled   : Bool := false                -- … and the limiter returned on `poll_ready → Pending` before reading
+  stalled   : Bool := false                -- … and the limiter, at its limit, returned on `poll_ready → Pending` before reading
+  belowLimitStall : Bool := false          -- … and the limiter did so although the poll began below the limit
   sawT      : Bool := false                -- a transport call was seen in the current op
   prevReadyP : Bool := false               -- the previous transport call was `poll_ready → Pending`
   failed    : Bool := false
@@ -102,7 +103,7 @@ def Book.endOp (b : Book) : Book :=
         let b := b.updExec r (fun e => if e.gone then e else { e with gone := true, abandoned := true })
         if fresh then { b with abandonOrder := b.abandonOrder ++ [r] } else b
     | none => b
-  { b with curDropExec := none, topPoll := false, stalled := false, sawT := false, prevReadyP := false, lastRead := none, justRead := none, idleNow := false }
+  { b with curDropExec := none, topPoll := false, stalled := false, belowLimitStall := false, sawT := false, prevReadyP := false, lastRead := none, justRead := none, idleNow := false }
 
 def Book.step (b : Book) : SEv → Book
   | .op o =>
@@ -122,7 +123,11 @@ def Book.step (b : Book) : SEv → Book
           let b := if r == .err then { b with failed := true } else b
           -- the limiter's `ready!(poll_ready)` returned Pending (so the inner channel was not polled):
           -- recognisable because the next transport call is the write pump's own `poll_ready`
-          let b := if b.topPoll && b.prevReadyP && b.limit.isSome then { b with stalled := true } else b
+          -- … and only a channel at its limit does that: the count this poll began with is the one the previous
+          -- channel poll reported (`lastCounts`; in-flight requests change inside channel polls only)
+          let b := if b.topPoll && b.prevReadyP && b.limit.isSome then
+              (if b.lastCounts ≥ b.limit.getD 0 then { b with stalled := true } else { b with belowLimitStall := true })
+            else b
           { b with sawT := true, prevReadyP := r == .pending }
       | .tFlush _ r => { (if r == .err then { b with failed := true } else b) with sawT := true, prevReadyP := false }
       | .tNext _ r =>
@@ -249,7 +254,9 @@ def checkC06 (b : Book) (_ : Unit) : SEv → Unit × Option String
 def monC06 (limit : Option Nat) (evs : List SEv) : Mon Unit := Mon.run limit checkC06 () evs
 
 /-- The limiter-stall finding (DESIGN.md F7): the handler outlives its deadline because every channel
-poll since the deadline returned on `poll_ready → Pending` before processing expirations. -/
+poll since the deadline returned on `poll_ready → Pending` before processing expirations.  (`checkC06Stall` also rejects
+a poll in which the limiter took that exit although the poll began below the limit — `belowLimitStall` — with a message
+of its own: only a channel at its limit may stop polling the inner channel.) -/
 structure C06StallSt where
   /-- requests whose timer tick had passed when a *stalled* channel poll returned -/
   overdue : List Nat := []
@@ -258,7 +265,9 @@ deriving Repr
 
 def checkC06Stall (b : Book) (s : C06StallSt) : SEv → C06StallSt × Option String
   | .obs (.ret (.server _) _) =>
-      if b.topPoll && b.stalled then
+      if b.topPoll && b.belowLimitStall then
+        (s, some s!"limiter returned on poll_ready → Pending without polling the inner channel although only {b.lastCounts} of {b.limit.getD 0} requests were in flight")
+      else if b.topPoll && b.stalled then
         let due := (b.table.filterMap fun (_, r) => match b.exec r with
           | some e => if e.tick ≤ b.now && !e.gone then some r else none
           | none => none)
